@@ -15,6 +15,9 @@ RULE = (
 RULE += (
     ' Also CALLARG (14 expressions whose call arguments are calls, in main code and inside a function), DEADLIB (dropped code that mentions a library function: 6 guards x 5 statements x 3 program shapes) and LIST contexts that bind the looked-up value to a name read twice.'
 )
+RULE += (
+    ' Also SYNTAX (one program per Python construct - about 90 forms inside and outside the supported subset, each also inside a twice-called function: whatever is accepted must behave like the source) and GLOBALS (module-level variables written inside functions: 5 function shapes x 4 main shapes x 3 positions of the initialisation); DEAD has an action whose callee contains an @emit_code call.'
+)
 ASSUME = [
     "reference IC10 machine M (vp/ic10.py) models the game's chip for the opcodes used",
     "reference executor R (vp/ref.py): CPython control flow + IC10 arithmetic in Num",
@@ -37,6 +40,8 @@ def build_cases(tier):
     for c in F.deadlib(tier):
         cases.append(dict(c, variants=[{}] if c["family"] != "DEADLIB" else [{}, {"inline_functions": False}]))
     cases += F.callarg(tier)
+    cases += F.syntax(tier)
+    cases += F.globals_family(tier)
     cases += F.constprop(tier)
     cases += F.intrinsic(tier)
     cases += F.latestore(tier)
